@@ -38,12 +38,14 @@ struct Scn {
     ts_obj: f64,
     object_first: bool,
     sct: bool,
+    /// EXT_TIME carries SCT-High only (32-bit NTP seconds, RFC 5651 allows it) instead of SCT-High + SCT-Low
+    sct_hi_only: bool,
     check: bool,
     transit: f64,
     inband_fti: bool,
 }
 
-fn fdt_packets(tsi: u64, inst: &Inst, sct: bool, data_len: usize, md5: &str, e: usize) -> Vec<Vec<u8>> {
+fn fdt_packets(tsi: u64, inst: &Inst, sct: bool, hi_only: bool, data_len: usize, md5: &str, e: usize) -> Vec<Vec<u8>> {
     let expires_ntp = (BASE as i64 + inst.expires) as u64 + NTP_UNIX_OFFSET;
     let xml = format!(
         "<?xml version=\"1.0\" encoding=\"UTF-8\"?>\n<FDT-Instance xmlns=\"urn:IETF:metadata:2005:FLUTE:FDT\" Expires=\"{}\" FEC-OTI-FEC-Encoding-ID=\"0\" FEC-OTI-Maximum-Source-Block-Length=\"64\" FEC-OTI-Encoding-Symbol-Length=\"{}\"><File TOI=\"{}\" Content-Location=\"file:///x/{}.bin\" Content-Length=\"{}\" Transfer-Length=\"{}\" Content-MD5=\"{}\"/></FDT-Instance>",
@@ -58,7 +60,7 @@ fn fdt_packets(tsi: u64, inst: &Inst, sct: bool, data_len: usize, md5: &str, e: 
         if sct {
             let us = ((BASE as f64 + inst.ts_emit) * 1e6) as u64;
             let (hi, lo) = wire::unix_us_to_ntp(us);
-            exts.push(wire::ext_time(&Sct { hi: Some(hi), lo: Some(lo), ert: None, slc: None }, 0));
+            exts.push(wire::ext_time(&Sct { hi: Some(hi), lo: if hi_only { None } else { Some(lo) }, ert: None, slc: None }, 0));
         }
         exts.push(wire::ext_fti(&fti));
         let l = wire::enc_lct(tsi, 0, 0);
@@ -91,7 +93,7 @@ fn run(s: &Scn, skew: f64, data: &[u8]) -> Result<Outcome, util::PanicInfo> {
     // (receiver instant, packet)
     let mut timeline: Vec<(f64, Vec<u8>)> = vec![];
     for inst in &s.insts {
-        for (n, p) in fdt_packets(tsi, inst, s.sct, data.len(), &md5, e).into_iter().enumerate() {
+        for (n, p) in fdt_packets(tsi, inst, s.sct, s.sct_hi_only, data.len(), &md5, e).into_iter().enumerate() {
             timeline.push((inst.ts_emit + s.transit + skew + n as f64 * 1e-4, p));
         }
     }
@@ -166,7 +168,7 @@ fn main() {
         for &pub_t in &pubs {
         for &dur in &durs {
             for &off in &offs {
-                for &sct in &[true, false] {
+                for &(sct, sct_hi_only) in &[(true, false), (true, true), (false, false)] {
                     for &check in &[true, false] {
                         for &object_first in &[false, true] {
                             for &transit in &[0.0f64, 0.2] {
@@ -210,7 +212,7 @@ fn main() {
                                         }
                                         _ => {}
                                     }
-                                    scns.push(Scn { insts, ts_obj, object_first, sct, check, transit, inband_fti });
+                                    scns.push(Scn { insts, ts_obj, object_first, sct, sct_hi_only, check, transit, inband_fti });
                                 }
                             }
                         }
@@ -254,7 +256,7 @@ fn main() {
                 any |= !o.writers.is_empty() || o.fdt_callbacks > 0;
                 let delivered = o.writers.iter().any(|w| w.0.ends_with("C"));
                 let want = expected(s, skew);
-                let f = |v: Violation| v.with("sct", s.sct).with("check", s.check).with("object_first", s.object_first).with("instances", s.insts.len() as u64).with("skew_zero", skew == 0.0).with("skew_sign", if skew < 0.0 { "neg" } else { "pos" }).with("skew_abs_gt_1day", skew.abs() > 86400.0);
+                let f = |v: Violation| v.with("sct", s.sct).with("sct_hi_only", s.sct_hi_only).with("check", s.check).with("object_first", s.object_first).with("instances", s.insts.len() as u64).with("skew_zero", skew == 0.0).with("skew_sign", if skew < 0.0 { "neg" } else { "pos" }).with("skew_abs_gt_1day", skew.abs() > 86400.0);
                 if delivered != want {
                     cr.violations.push(f(Violation::new(if want { "valid_fdt_but_not_delivered" } else { "delivered_through_expired_fdt" }, format!(
                         "receiver skew {} s: object {} although the reference says {} (writers {:?}); scenario {:?}", skew, if delivered { "delivered" } else { "not delivered" }, if want { "deliver" } else { "do not deliver" }, o.writers, s)))
